@@ -5,8 +5,14 @@ import (
 )
 
 func LadnToModels(buf []uint8) (dnnValues []string) {
-	for bufOffset := 1; bufOffset < len(buf); {
+	// TS 24.501 9.11.3.29: a sequence of (length of LADN DNN value, LADN DNN value)
+	for bufOffset := 0; bufOffset < len(buf); {
 		lenOfDnn := int(buf[bufOffset])
+		bufOffset++
+		if bufOffset+lenOfDnn > len(buf) {
+			// truncated last entry: ignore it
+			break
+		}
 		dnn := string(buf[bufOffset : bufOffset+lenOfDnn])
 		dnnValues = append(dnnValues, dnn)
 		bufOffset += lenOfDnn
